@@ -62,6 +62,28 @@ def generate(seed, tier="quick"):
                 o, c = ("[", "]") if s["prev"][0] == "list" else ("(", ",)" if len(items) == 1 else ")")
                 s["arg"] = o + ", ".join(items) + c
                 s["wrapped"] = True
+        # Is() inside the values of a dict sub-snapshot that is evaluated repeatedly (loop)
+        for sid, s in f["sites"].items():
+            if s["op"] == "item" and s["prev"] is not None and s["prev"][1] and xr.random() < 0.5:
+                parts = []
+                wrapped = False
+                for k, v in s["prev"][1]:
+                    if v[0] in ("list", "tuple") and v[1] and not wrapped:
+                        items = [V.expr(x) for x in v[1]]
+                        j = xr.randrange(len(items))
+                        items[j] = f"Is({items[j]})"
+                        o, c = ("[", "]") if v[0] == "list" else ("(", ",)" if len(items) == 1 else ")")
+                        parts.append(f"{V.expr(k)}: {o}{', '.join(items)}{c}")
+                        wrapped = True
+                    else:
+                        parts.append(f"{V.expr(k)}: {V.expr(v)}")
+                if wrapped:
+                    s["arg"] = "{" + ", ".join(parts) + "}"
+                    s["wrapped"] = True
+                    for t in f["tests"]:
+                        for e in t["events"]:
+                            if e.get("site") == sid and e.get("t") == "cmp" and len(e.get("vals", [])) == 1:
+                                e["vals"] = e["vals"] * 3
         # a second operation on one snapshot
         if xr.random() < 0.3:
             n += 1
